@@ -89,6 +89,26 @@ pub fn walk(ctx: &mut Ctx, g: &Guarded, bi: &BootInformation) {
         ctx.ln("tags_nth", format!("{} {}", k, v));
     }
     ctx.ln("tags_count", gv(|| bi.tags().count()));
+    ctx.ln(
+        "tags_last",
+        match guard(|| bi.tags().last()) {
+            Ok(Some(t)) => format!("VAL {}", view(g, t)),
+            Ok(None) => "VAL none".to_string(),
+            Err(()) => "PANIC".to_string(),
+        },
+    );
+    ctx.ln(
+        "tags_last_exhausted",
+        match guard(|| {
+            let mut it = bi.tags();
+            while it.next().is_some() {}
+            (it.clone().last().is_none(), it.last().is_none())
+        }) {
+            Ok((true, true)) => "VAL none".to_string(),
+            Ok(_) => "VAL some".to_string(),
+            Err(()) => "PANIC".to_string(),
+        },
+    );
     let r = guard(|| {
         let mut it = bi.tags();
         let first = it.next().is_some();
